@@ -4,6 +4,7 @@ package main
 
 import (
 	"fmt"
+	"go/constant"
 	"go/token"
 	"go/types"
 	"sort"
@@ -731,4 +732,372 @@ func usesReflect(f *ssa.Function) bool {
 		}
 	}
 	return false
+}
+
+// ---------------------------------------------------------------------------
+// R-BYTERUNE
+
+func init() {
+	register(&Rule{ID: "R-BYTERUNE", Floor: 1, Run: ruleByteRune,
+		Text: "No text of a script is rebuilt byte by byte: nowhere in the lexer, the parser or the compiler is a byte taken out of a string by indexing converted to a string on its own (string(s[i])) — for a byte of a multi-byte character that yields a different character (the two bytes of `é` become `Ã©`), so any text that passes through such a loop is only right while it is ASCII.  (Expected count on a correct tree: zero; the matcher is run on a built-in positive example on every run.)"})
+}
+
+// byteToStringSites: conversions to string of a single byte that was indexed
+// out of a string.
+func byteToStringSites(fn *ssa.Function) []*ssa.Convert {
+	var out []*ssa.Convert
+	for _, b := range fn.Blocks {
+		for _, ins := range b.Instrs {
+			cv, ok := ins.(*ssa.Convert)
+			if !ok {
+				continue
+			}
+			if tb, ok := cv.Type().Underlying().(*types.Basic); !ok || tb.Info()&types.IsString == 0 {
+				continue
+			}
+			if sb, ok := cv.X.Type().Underlying().(*types.Basic); !ok || sb.Kind() != types.Uint8 {
+				continue
+			}
+			for _, o := range append([]ssa.Value{cv.X}, origins(cv.X)...) {
+				var base ssa.Value
+				switch x := o.(type) {
+				case *ssa.Index:
+					base = x.X
+				case *ssa.Lookup:
+					base = x.X
+				default:
+					continue
+				}
+				if xb, ok := base.Type().Underlying().(*types.Basic); ok && xb.Info()&types.IsString != 0 {
+					out = append(out, cv)
+					break
+				}
+			}
+		}
+	}
+	return out
+}
+
+const byteRuneExample = `package t
+func flags(val string) string {
+	out := ""
+	for i := 0; i < len(val); i++ {
+		if val[i] == ')' {
+			break
+		}
+		out += string(val[i])
+	}
+	return out
+}
+`
+
+func ruleByteRune(p *Program, r *Reporter) {
+	n := 0
+	for _, fn := range p.LibFns {
+		path := fnPkg(fn).Pkg.Path()
+		if path != Mod+"/lexer" && path != Mod+"/parser" && path != Mod && path != Mod+"/token" && path != Mod+"/ast" {
+			continue
+		}
+		for _, cv := range byteToStringSites(fn) {
+			n++
+			r.Fail(siteKey(p, fn, cv.Pos(), "turns one byte of a string into a string"), p.Pos(cv.Pos()), "a byte indexed out of a string is converted to a string on its own: for a byte of a multi-byte character the result is another character (each byte of `é` becomes a Latin-1 letter), so the text that is put together here differs from the text of the script wherever that is not ASCII — a regexp literal `/(?:é)x/` no longer denotes its pattern")
+		}
+	}
+	sp := buildExample(byteRuneExample)
+	hit := 0
+	if sp != nil {
+		if f := sp.Func("flags"); f != nil {
+			hit = len(byteToStringSites(f))
+		}
+	}
+	if hit == 0 {
+		r.Undecided("self-test", "-", "the matcher did not fire on its built-in positive example")
+	} else {
+		r.OkNT("strings rebuilt byte by byte in the translation pipeline", "-", fmt.Sprintf("%d found; matcher verified on a built-in positive example", n))
+	}
+}
+
+// ---------------------------------------------------------------------------
+// R-TYPENAME
+
+func init() {
+	register(&Rule{ID: "R-TYPENAME", Floor: 1, Run: ruleTypeName,
+		Text: "type() names the type of every value: the text it returns is the lower-cased internal type name of its argument (strings.ToLower of Type()), or is looked up in a table that has an entry — the lower-cased name — for every type constant of the object package a script can hold (array, boolean, float, hash, integer, null, regexp, string)."})
+	register(&Rule{ID: "R-FLOATINT", Floor: 1, Run: ruleFloatInt,
+		Text: "No built-in turns a float into an integer without looking at its size: every conversion of a float to an integer type in the built-in functions is dominated by comparisons that bound the value from both sides (or bound its absolute value).  The conversion of a float beyond ±2^63, of an infinity or of NaN yields a machine-dependent number — int(1e19) must be null, not -9223372036854775808.  (Expected count on the unmodified tree: zero — the built-ins convert through strconv; the matcher is run on a built-in positive example on every run.)"})
+}
+
+func ruleTypeName(p *Program, r *Reporter) {
+	fn := registeredBuiltins(p)["type"]
+	if fn == nil {
+		r.Undecided("type built-in", "-", "no function is registered under the name type")
+		return
+	}
+	// the type constants of the object package
+	want := map[string]string{}
+	if pk := p.ByPath[Mod+"/object"]; pk != nil {
+		sc := pk.Types.Scope()
+		for _, n := range sc.Names() {
+			c, ok := sc.Lookup(n).(*types.Const)
+			if !ok || c.Val().Kind() != constant.String {
+				continue
+			}
+			v := constant.StringVal(c.Val())
+			// the type names: constants of type Type, or untyped ones spelt as
+			// their own value (ARRAY = "ARRAY")
+			if !isNamed(c.Type(), "object", "Type") && (v != n || strings.ToUpper(v) != v) {
+				continue
+			}
+			if v == "VOID" {
+				continue // not a value a script can hold
+			}
+			want[v] = strings.ToLower(v)
+		}
+	}
+	if len(want) == 0 {
+		r.Undecided("type built-in", "-", "cannot read the type constants of the object package")
+		return
+	}
+	key := "type() names every type"
+	// the strings the built-in returns
+	var decided, bad string
+	n := 0
+	for _, b := range fn.Blocks {
+		for _, ins := range b.Instrs {
+			st, ok := ins.(*ssa.Store)
+			if !ok {
+				continue
+			}
+			fa, ok := st.Addr.(*ssa.FieldAddr)
+			if !ok || objectStructName(fa.X.Type()) != "String" {
+				continue
+			}
+			n++
+			for _, o := range origins(st.Val) {
+				switch x := o.(type) {
+				case *ssa.Call:
+					if cal := x.Call.StaticCallee(); cal != nil && cal.String() == "strings.ToLower" {
+						// of the argument's Type()
+						okArg := false
+						for _, o2 := range origins(x.Call.Args[0]) {
+							for {
+								if cv, ok := o2.(*ssa.Convert); ok {
+									o2 = cv.X
+									continue
+								}
+								if ct, ok := o2.(*ssa.ChangeType); ok {
+									o2 = ct.X
+									continue
+								}
+								break
+							}
+							if c2, ok := o2.(*ssa.Call); ok && c2.Call.IsInvoke() && c2.Call.Method.Name() == "Type" {
+								okArg = true
+							}
+						}
+						if okArg {
+							decided = "strings.ToLower of the argument's Type()"
+						} else {
+							bad = "the lower-cased text is not the argument's type name"
+						}
+						continue
+					}
+					bad = "the text returned is computed by " + strings.TrimPrefix(callKey(p, fn, x), "call ")
+				case *ssa.Lookup:
+					ld, ok := x.X.(*ssa.UnOp)
+					if !ok {
+						bad = "the name is looked up in a table this rule cannot read"
+						continue
+					}
+					g, ok := ld.X.(*ssa.Global)
+					if !ok || !globalNeverWritten(p, g) {
+						bad = "the name is looked up in a table that is not a package-level literal, or is written at run time"
+						continue
+					}
+					keys, vals, info, ok := globalMapLiteral(p, g)
+					if !ok {
+						bad = "the name is looked up in a table this rule cannot read"
+						continue
+					}
+					have := map[string]string{}
+					for i, k := range keys {
+						if k.Kind() != constant.String {
+							continue
+						}
+						if tv, has := info.Types[vals[i]]; has && tv.Value != nil && tv.Value.Kind() == constant.String {
+							have[constant.StringVal(k)] = constant.StringVal(tv.Value)
+						}
+					}
+					var missing []string
+					for k, v := range want {
+						if have[k] != v {
+							missing = append(missing, strings.ToLower(k))
+						}
+					}
+					sort.Strings(missing)
+					if len(missing) > 0 {
+						bad = "the table the name is looked up in has no (or a different) entry for " + strings.Join(missing, ", ") + ": type() of such a value is the empty string"
+					} else {
+						decided = fmt.Sprintf("a table with the lower-cased name of all %d types", len(want))
+					}
+				case *ssa.Const:
+					bad = "a fixed text is returned whatever the argument is"
+				default:
+					bad = fmt.Sprintf("the text returned has an origin this rule does not know (%T)", o)
+				}
+			}
+		}
+	}
+	switch {
+	case bad != "":
+		r.Fail(key, p.Pos(fn.Pos()), bad)
+	case decided != "" && n > 0:
+		r.OkNT(key, p.Pos(fn.Pos()), decided)
+	default:
+		r.Undecided(key, p.Pos(fn.Pos()), "cannot find the text type() returns")
+	}
+}
+
+// ---------------------------------------------------------------------------
+// R-FLOATINT
+
+// unboundedFloatToInt: conversions of a float to an integer type in fn whose
+// operand is not bounded from both sides by dominating comparisons.
+func unboundedFloatToInt(fn *ssa.Function) []*ssa.Convert {
+	var out []*ssa.Convert
+	isFloat := func(t types.Type) bool {
+		b, ok := t.Underlying().(*types.Basic)
+		return ok && b.Info()&types.IsFloat != 0
+	}
+	for _, b := range fn.Blocks {
+		for _, ins := range b.Instrs {
+			cv, ok := ins.(*ssa.Convert)
+			if !ok || !isFloat(cv.X.Type()) {
+				continue
+			}
+			tb, ok := cv.Type().Underlying().(*types.Basic)
+			if !ok || tb.Info()&types.IsInteger == 0 {
+				continue
+			}
+			if _, isC := cv.X.(*ssa.Const); isC {
+				continue
+			}
+			upper, lower := false, false
+			for cur := b; cur.Idom() != nil; cur = cur.Idom() {
+				d := cur.Idom()
+				iff, ok := terminator(d).(*ssa.If)
+				if !ok || len(d.Succs) != 2 {
+					continue
+				}
+				onTrue := (d.Succs[0] == b || d.Succs[0].Dominates(b)) && len(d.Succs[0].Preds) == 1
+				onFalse := (d.Succs[1] == b || d.Succs[1].Dominates(b)) && len(d.Succs[1].Preds) == 1
+				if onTrue == onFalse {
+					continue
+				}
+				bo, ok := iff.Cond.(*ssa.BinOp)
+				if !ok {
+					continue
+				}
+				op := bo.Op
+				x, y := bo.X, bo.Y
+				if _, isC := x.(*ssa.Const); isC {
+					// C op v  ⇒  v op' C
+					x, y = y, x
+					switch op {
+					case token.LSS:
+						op = token.GTR
+					case token.LEQ:
+						op = token.GEQ
+					case token.GTR:
+						op = token.LSS
+					case token.GEQ:
+						op = token.LEQ
+					}
+				}
+				if _, isC := y.(*ssa.Const); !isC {
+					continue
+				}
+				if onFalse {
+					switch op {
+					case token.LSS:
+						op = token.GEQ
+					case token.LEQ:
+						op = token.GTR
+					case token.GTR:
+						op = token.LEQ
+					case token.GEQ:
+						op = token.LSS
+					default:
+						continue
+					}
+				}
+				abs := false
+				if c, ok := x.(*ssa.Call); ok && c.Call.StaticCallee() != nil && c.Call.StaticCallee().String() == "math.Abs" && len(c.Call.Args) == 1 {
+					x, abs = c.Call.Args[0], true
+				}
+				if x != cv.X {
+					continue
+				}
+				switch op {
+				case token.LSS, token.LEQ:
+					upper = true
+					if abs {
+						lower = true
+					}
+				case token.GTR, token.GEQ:
+					if !abs {
+						lower = true
+					}
+				}
+			}
+			if !(upper && lower) {
+				out = append(out, cv)
+			}
+		}
+	}
+	return out
+}
+
+const floatIntExample = `package t
+import "math"
+func toInt(v float64) int64 {
+	if v == math.Trunc(v) {
+		return int64(v)
+	}
+	return 0
+}
+func bounded(v float64) int64 {
+	if v >= -9.2e18 && v <= 9.2e18 {
+		return int64(v)
+	}
+	return 0
+}
+`
+
+func ruleFloatInt(p *Program, r *Reporter) {
+	n := 0
+	for _, fn := range p.LibFns {
+		if fnPkg(fn).Pkg.Path() != Mod+"/environment" {
+			continue
+		}
+		for _, cv := range unboundedFloatToInt(fn) {
+			n++
+			r.Fail(siteKey(p, fn, cv.Pos(), "converts a float to an integer without a range check"), p.Pos(cv.Pos()), "a built-in converts a float to "+typeStr(cv.Type())+" and nothing on the way bounds the float from both sides: beyond ±2^63 (and for ±Inf and NaN) Go's conversion yields a machine-dependent number — int(10000000000000000000.0) becomes -9223372036854775808 instead of null")
+		}
+	}
+	sp := buildExample(floatIntExample)
+	hitBad, hitGood := 0, 0
+	if sp != nil {
+		if f := sp.Func("toInt"); f != nil {
+			hitBad = len(unboundedFloatToInt(f))
+		}
+		if f := sp.Func("bounded"); f != nil {
+			hitGood = len(unboundedFloatToInt(f))
+		}
+	}
+	if hitBad != 1 || hitGood != 0 {
+		r.Undecided("self-test", "-", fmt.Sprintf("the matcher gave %d/%d on its built-in examples (expected 1/0)", hitBad, hitGood))
+	} else {
+		r.OkNT("float-to-integer conversions in the built-ins", "-", fmt.Sprintf("%d unbounded found; matcher verified on built-in examples (one unbounded, one bounded)", n))
+	}
 }
